@@ -707,3 +707,44 @@ def suspender_popped_rule(run, f, rid):
         run.ok(rid, "trap-redirect/pops", "clean_current on every path of the redirect closure")
     else:
         run.fail(rid, "trap-redirect/pops", rb.loc(), "the closure the trap handler redirects to does not pop the faulting coroutine's suspender: the body is abandoned (not unwound), so nothing else will")
+
+
+# ------------------------------------------------------------------ C24: a body that ends with an error inside a hooked call still ends with Error
+def error_from_syscall_rule(run, f, rid):
+    """state.rs lets only a Running coroutine become Error (the documented machine).  A panic or a memory fault INSIDE a
+    hooked call finds the coroutine in Syscall(.., Executing): error() refuses, resume() returns Err, the coroutine never
+    reaches a terminal state and a scheduler pass aborts.  So before error() the Return arm of raw_resume must leave the
+    system call (running(): Syscall(Executing) -> Running): every path to error() passes running() or has established that
+    the state is not Syscall(.., Executing)."""
+    run.rule(rid, "in raw_resume every path to error() passes running() unless the state was found not to be Syscall(.., Executing)", floor=1, template="T2 (path by path)")
+    b = unit(run, rid, f, CO + "::raw_resume")
+    if b is None:
+        return
+    er = find_calls(b, callee_is(CO + "::error"))
+    rs = find_calls(b, callee_is("corosensei::Coroutine::resume"))
+    rn = {x for (x, t) in find_calls(b, callee_is(CO + "::running"))}
+    if len(er) != 1 or len(rs) != 1:
+        run.fail(rid, "raw_resume/error-from-syscall", b.loc(), "expected one inner resume and one error() call in raw_resume (found %d / %d)" % (len(rs), len(er)))
+        return
+    ex = er[0][0]
+    n_ex = bad = 0
+    cfg = Cfg(b)
+    for start in cfg.after(rs[0][0]):
+        for (pth, conds, sv) in PathWalker(b).walk(start, lambda bid, t: ("error",) if bid == ex else None):
+            if sv[0] != "error":
+                continue
+            n_ex += 1
+            if any(x in rn for x in pth):
+                continue
+            # however the test is spelled (match / if let / ==): what the path leaves possible for the state
+            st_left = enum_facts(conds, ("Ready", "Running", "Suspend", "Syscall", "Cancelled", "Complete", "Error"))
+            sy_left = enum_facts(conds, ("Executing", "Suspend", "Timeout", "Callback"))
+            excluded = "Syscall" not in st_left or "Executing" not in sy_left
+            if not excluded:
+                bad += 1
+    if not run.paths(rid, "raw_resume/error-from-syscall", b.loc(), n_ex):
+        return
+    if bad:
+        run.fail(rid, "raw_resume/error-from-syscall", b.loc(er[0][1].get("line")), "on %d path(s) raw_resume calls error() for a body that ended with an error without leaving a system call first: when the panic or fault happened inside a hooked call (state Syscall(.., Executing)) error() refuses, resume() returns Err and the coroutine never becomes Error" % bad)
+    else:
+        run.ok(rid, "raw_resume/error-from-syscall", {"paths": n_ex})
